@@ -140,6 +140,23 @@ func (e *Enc) callWith(fr *frame, st *State, c *ssa.CallCommon, fnv Value, args 
 		return e.inline(fr, st, fn, args, bindings, prefix, rt, pos)
 	}
 	if fn.Blocks != nil && e.v.inRepo(fn) {
+		if e.v.sweepScope != nil && e.v.sweepScope(key) && !fr.inlined {
+			// the callee is verified by the sweep under its default
+			// precondition; its callers establish it
+			for i, p := range fn.Params {
+				if i >= len(args) || !defaultNonNilParam(p.Type()) {
+					continue
+				}
+				if _, isPtr := p.Type().Underlying().(*types.Pointer); isPtr {
+					continue // pointer parameters: assumed in the callee, not asserted here (optional pointers are common)
+				}
+				cond := "(not (= " + args[i].term + " 0))"
+				if e.u.sortOf(args[i].typ) == sortIface {
+					cond = "(not (= (itag " + args[i].term + ") 0))"
+				}
+				e.oblige(st, "pre", shortCallee(funcDisplayName(fn))+":default-non-nil "+p.Name(), cond, pos)
+			}
+		}
 		// in-repo function without contract: effects unknown, checked on its
 		// own under precondition true.
 		keys, all, ghosts := e.v.funcWrites(e, fn)
